@@ -123,7 +123,6 @@ Section Prog.
     intros d ul1 g ul2 Hd Em Hc Hincl.
     pose proof (guard_def d Hd) as Hgd. unfold def_tyguard in Hgd. rewrite Em in Hgd.
     apply andb_prop in Hgd. destruct Hgd as [Hgd Hret]. apply andb_prop in Hret. destruct Hret as [Hret Htdr].
-    apply andb_prop in Hgd. destruct Hgd as [Hgd Hrk]. apply negb_true_iff in Hrk.
     apply andb_prop in Hgd. destruct Hgd as [Hgd Htg]. apply andb_prop in Hgd. destruct Hgd as [Hnd Hctd].
     apply has_ty_tyo in Hret.
     unfold compile_def in Hc.
@@ -185,7 +184,6 @@ Section Prog.
     intros d ul1 g ul2 Hd Em Hc Hincl.
     pose proof (guard_def d Hd) as Hgd. unfold def_tyguard in Hgd. rewrite Em in Hgd.
     apply andb_prop in Hgd. destruct Hgd as [Hgd Hret].
-    apply andb_prop in Hgd. destruct Hgd as [Hgd Hrk]. apply negb_true_iff in Hrk.
     apply andb_prop in Hgd. destruct Hgd as [Hgd Htg]. apply andb_prop in Hgd. destruct Hgd as [Hnd Hctd].
     apply has_ty_tyo in Hret.
     unfold compile_main in Hc.
